@@ -500,6 +500,153 @@ Fixpoint db_crun (s : dbst) (ops : list dbop) : bool :=
   | o :: rest => db_crun (db_step true s o) rest
   end.
 
+(* ================= StackTrie (trie/stacktrie.go) ================= *)
+(* The streaming hasher behind DeriveSha.  Node types as in stacktrie.go (emptyNode, branchNode,
+   extNode, leafNode, hashedNode).  Key chunks are HEX nibbles WITHOUT the terminator (TryUpdate cuts
+   it off: st.insert(k[:len(k)-1], value)); a node's [key] is the chunk from its keyOffset on, so
+   the model hands the REST of the key down.  A hashed node is opaque to the code (it keeps only
+   the hash or the short RLP); the model keeps the subtree that was hashed as a ghost so that
+   [to_node] can say which trie the StackTrie stands for.  Go panics are None. *)
+Inductive snode :=
+| SE                                  (* emptyNode / nil child *)
+| SL (k : hkey) (v : val)             (* leafNode *)
+| SX (k : hkey) (c : snode)           (* extNode, children[0] = c *)
+| SB (cs : list snode)                (* branchNode, children[0..15] *)
+| SH (g : node).                      (* hashedNode (ghost: what was hashed) *)
+
+(* the trie a StackTrie stands for *)
+Fixpoint to_node (s : snode) : node :=
+  match s with
+  | SE => Nil
+  | SL k v => Short (k ++ [16%N]) (Val v)
+  | SX k c => Short k (to_node c)
+  | SB cs => Full (map to_node cs ++ [Nil])
+  | SH g => g
+  end.
+
+(* stacktrie.go:hash(): the node becomes a hashedNode *)
+Definition st_hash (s : snode) : snode :=
+  match s with
+  | SH g => SH g                                      (* "Shortcut if node is already hashed" *)
+  | _ => SH (to_node s)
+  end.
+
+Definition is_se (s : snode) : bool := match s with SE => true | _ => false end.
+
+(* "Unresolve elder siblings": for i := idx-1; i >= 0; i-- { if children[i] != nil { hash it; break } }
+   on the list of the children below idx: the LAST non-nil one is hashed *)
+Fixpoint hash_last (l : list snode) : list snode * bool :=
+  match l with
+  | [] => ([], false)
+  | x :: r =>
+      let (r', found) := hash_last r in
+      if found then (x :: r', true)
+      else if is_se x then (x :: r, false) else (st_hash x :: r, true)
+  end.
+
+Definition hash_elder (cs : list snode) (i : nat) : list snode :=
+  fst (hash_last (firstn i cs)) ++ skipn i cs.
+
+Definition schild_app {A : Type} (f : snode -> A) (d : A) : list snode -> nat -> A :=
+  fix go (cs : list snode) (i : nat) {struct cs} : A :=
+    match cs with
+    | [] => d
+    | x :: cs' => match i with O => f x | S i' => go cs' i' end
+    end.
+
+Fixpoint sset_nth (cs : list snode) (i : nat) (n : snode) : list snode :=
+  match cs with
+  | [] => []
+  | x :: r => match i with O => n :: r | S i' => x :: sset_nth r i' n end
+  end.
+
+Definition sempty16 : list snode := repeat SE 16.
+
+(* the two-children branch both split cases build: p.children[origIdx] = n; p.children[newIdx] = o *)
+Definition sbranch2 (a b : N) (n o : snode) : snode :=
+  SB (sset_nth (sset_nth sempty16 (N.to_nat a) n) (N.to_nat b) o).
+
+(* stacktrie.go:insert(key, value); [key] = key[st.keyOffset:] *)
+Fixpoint st_insert (s : snode) (key : hkey) (v : val) {struct s} : option snode :=
+  match s with
+  | SB cs =>
+      match key with
+      | [] => None                                      (* key[st.keyOffset]: index out of range *)
+      | c :: rest =>
+          let i := N.to_nat c in
+          if Nat.ltb i 16 then
+            (* the elder-sibling loop touches children below idx only: children[idx] is that of cs *)
+            match schild_app (fun x => st_insert x rest v) None cs i with
+            | Some nn => Some (SB (sset_nth (hash_elder cs i) i nn))
+            | None => None
+            end
+          else None                                     (* children[idx]: index out of range *)
+      end
+  | SX k c =>
+      let m := prefix_len key k in                      (* getDiffIndex *)
+      if Nat.eqb m (length k) then                      (* chunks identical: recurse into the child *)
+        match st_insert c (skipn m key) v with
+        | Some c' => Some (SX k c')
+        | None => None
+        end
+      else
+        match nth_error k m, nth_error key m with
+        | Some a, Some b =>
+            if N.ltb a 16 && N.ltb b 16 then
+              let n := st_hash (if Nat.ltb m (length k - 1) then SX (skipn (S m) k) c else c) in
+              let p := sbranch2 a b n (SL (skipn (S m) key) v) in
+              Some (if Nat.eqb m 0 then p else SX (firstn m k) p)
+            else None
+        | _, _ => None                                  (* getDiffIndex: key shorter than the chunk *)
+        end
+  | SL k v0 =>
+      let m := prefix_len key k in
+      if Nat.leb (length k) m then None                 (* "Trying to insert into existing key" *)
+      else
+        match nth_error k m, nth_error key m with
+        | Some a, Some b =>
+            if N.ltb a 16 && N.ltb b 16 then
+              let p := sbranch2 a b (st_hash (SL (skipn (S m) k) v0)) (SL (skipn (S m) key) v) in
+              Some (if Nat.eqb m 0 then p else SX (firstn m k) p)
+            else None
+        | _, _ => None                                  (* getDiffIndex: key shorter than the chunk *)
+        end
+  | SE => Some (SL key v)
+  | SH _ => None                                        (* "trying to insert into hash" *)
+  end.
+
+(* keybytesToHex(key) without the terminator *)
+Fixpoint nibbles (bs : list N) : hkey :=
+  match bs with
+  | [] => []
+  | b :: r => (b / 16)%N :: (b mod 16)%N :: nibbles r
+  end.
+
+(* stacktrie.go:TryUpdate *)
+Definition st_update (s : snode) (k v : list N) : option snode :=
+  if is_empty v then None                               (* panic("deletion not supported") *)
+  else st_insert s (nibbles k) v.
+
+Fixpoint st_run (s : snode) (h : list (list N * list N)) : option snode :=
+  match h with
+  | [] => Some s
+  | (k, v) :: h' => match st_update s k v with Some s' => st_run s' h' | None => None end
+  end.
+
+(* "a diverges below b": a < b in bytes.Compare order and neither is a prefix of the other -- what a
+   StackTrie needs of consecutive keys *)
+Fixpoint div_lt (a b : list N) : bool :=
+  match a, b with
+  | x :: a', y :: b' => if N.eqb x y then div_lt a' b' else N.ltb x y
+  | _, _ => false
+  end.
+
+Fixpoint chain_div (ks : list (list N)) : bool :=
+  match ks with
+  | a :: r => match r with b :: _ => div_lt a b | [] => true end && chain_div r
+  | [] => true
+  end.
+
 (* ================= correspondence cases ================= *)
 Inductive cop :=
 | CUpd (k v : list N)          (* TryUpdate (empty v = delete) *)
@@ -600,6 +747,52 @@ Definition decode_mop (o : rmcop) : mcop :=
   | RCp h => MCp h
   end.
 
+(* ---- StackTrie cases: the observed shape of the real StackTrie (hook trie/verif_c18_stack.go) after
+   an insertion, the observed panic, and the dump of the real trie.Trie built from the same list ---- *)
+Inductive xnode :=
+| XE
+| XL (k v : list int)
+| XX (k : list int) (c : xnode)
+| XB (cs : list xnode)
+| XH.
+
+Fixpoint shape_eqb (s : snode) (x : xnode) {struct s} : bool :=
+  match s, x with
+  | SE, XE => true
+  | SL k v, XL k' v' => keqb k (unpack k') && keqb v (unpack v')
+  | SX k c, XX k' c' => keqb k (unpack k') && shape_eqb c c'
+  | SB cs, XB xs =>
+      (fix go (l : list snode) (l' : list xnode) {struct l} : bool :=
+         match l, l' with
+         | [], [] => true
+         | a :: r, b :: r' => shape_eqb a b && go r r'
+         | _, _ => false
+         end) cs xs
+  | SH _, XH => true
+  | _, _ => false
+  end.
+
+Inductive rscop :=
+| RSUpd (k v : list int) (panicked : bool)   (* StackTrie.TryUpdate; did the real one panic? *)
+| RSShape (x : xnode)                        (* observed shape of the real StackTrie *)
+| RSTrie (d : dnode).                        (* dump of the real trie.Trie holding the same pairs *)
+
+(* [acc] = the pairs inserted so far, newest first.  After an observed panic the history ends. *)
+Fixpoint st_crun (s : snode) (acc : list (list N * list N)) (ops : list rscop) : bool :=
+  match ops with
+  | [] => true
+  | RSUpd k v p :: r =>
+      match st_update s (unpack k) (unpack v) with
+      | Some s' => negb p && st_crun s' ((unpack k, unpack v) :: acc) r
+      | None => p
+      end
+  | RSShape x :: r => shape_eqb s x && st_crun s acc r
+  | RSTrie d :: r =>
+      node_eqb (to_node s) (undump d)
+      && match run Nil (rev acc) with Some t => node_eqb t (undump d) | None => false end
+      && st_crun s acc r
+  end.
+
 (* kinds of cases: a trie history, a history over several handles (copies), or an observed
    DeriveSha key order *)
 Inductive cbody :=
@@ -607,7 +800,8 @@ Inductive cbody :=
 | BMulti (ops : list rmcop)
 | BOrder (n : N) (keys : list int)   (* the keys, each preceded by its length, concatenated and packed *)
 | BRange (d : dnode) (qs : list (list (list int * list int)))   (* the trie, and the lists VerifyRangeProof accepted *)
-| BDb (ops : list dbop).              (* a history over one trie.Database with observations *)
+| BDb (ops : list dbop)               (* a history over one trie.Database with observations *)
+| BStack (ops : list rscop).          (* a list fed to a StackTrie, with observed shapes *)
 
 Definition frame_keys (ks : list (list N)) : list N :=
   flat_map (fun k => N.of_nat (length k) :: k) ks.
@@ -622,6 +816,7 @@ Definition case_ok (c : case) : bool :=
       let t := undump d in
       forallb (fun q => range_ok t (map (fun kv => (unpack (fst kv), unpack (snd kv))) q)) qs
   | BDb ops => db_crun db0 ops
+  | BStack ops => st_crun SE [] ops
   end.
 Definition mismatches (cs : list case) : list N :=
   map fst (filter (fun c => negb (case_ok c)) cs).
